@@ -62,7 +62,7 @@ impl<'a> AssociatedTypes<'a> {
 
     /// Returns [WhereClause] from underlying [TraitItemType]s.
     pub fn emit_contract_predicate(&self, trait_name: &Ident) -> TokenStream {
-        let predicate = quote! { ContractT: #trait_name };
+        let predicate = quote! { SvContractT: #trait_name };
         if self.0.is_empty() {
             return predicate;
         }
@@ -88,7 +88,7 @@ impl<'a> AssociatedTypes<'a> {
             .find(|name| name.to_string().as_str() == type_name)
             .map(|name| {
                 let type_name = Ident::new(type_name, name.span());
-                parse_quote! { <ContractT as #trait_name>:: #type_name}
+                parse_quote! { <SvContractT as #trait_name>:: #type_name}
             })
     }
 }
